@@ -53,6 +53,16 @@ def links_from_html(
             except ValueError:
                 continue
 
+            # NOTE: the canonical form must still be an url (e.g. ":00008")
+            if not is_url(
+                url,
+                require_protocol=True,
+                tld_aware=True,
+                allow_spaces_in_path=True,
+                only_http_https=True,
+            ):
+                continue
+
         if url == base_url:
             continue
 
